@@ -348,3 +348,5 @@ type CommitteeProbe struct {
 func sortStrings(l []string) []string { sort.Strings(l); return l }
 
 func hash32(b []byte) [32]byte { return sha256.Sum256(b) }
+
+type stateIdentityAlias = state.Identity
